@@ -349,6 +349,18 @@ fn check_env_cleanup(ctx: &Ctx, judgements: &[DocJudgement], out: &mut Vec<Viola
             if !pids_done.insert(pid) {
                 continue;
             }
+            // the shell that runs the test cases is the configured one (`--shell`, `shell:`, bash)
+            {
+                let started = resolve(&p.argv0);
+                if started != shell && canon(&started) != canon(&shell) {
+                    out.push(v(
+                        "C18",
+                        "started-with-another-shell",
+                        Some(&tj.nonce),
+                        format!("test {}: started with {:?}, the configured shell is {:?}", tj.nonce, p.argv0, shell),
+                    ));
+                }
+            }
             // the variables: from the spawn (per-process) or from the exports (single script)
             let mut env: BTreeMap<String, String> = if script {
                 p.exports.iter().cloned().collect()
